@@ -143,6 +143,19 @@ def check_typed(fx, rep, rule, impl):
         if v[0] == "adt" and v[1] == "StackTrace":
             d = dict(v[3])
             fv = d.get("frames")
+            if fv is not None and fv[0] == "after" and fv[1][0] == "mcall" and fv[1][1].endswith("Extend::extend") and len(fv[1][2]) == 2 \
+                    and fv[1][2][0][0] == "place" and not fv[1][2][0][2]:
+                # `let mut frames = Vec::with_capacity(n); frames.extend(<flat_map ..>)`: collecting into a fresh vector, spelled out
+                vname = fv[1][2][0][1]
+                touches = [e_ for e_ in st.effects if e_[0] == "call" and e_[2] and e_[2][0] == ("place", vname, ())]
+                fresh = False
+                for n_ in F.walk(b["body"]):
+                    if n_.get("k") == "Block":
+                        for s_ in n_["stmts"]:
+                            if s_["k"] == "Let" and s_["pat"].get("k") == "Bind" and s_["pat"].get("name") == vname and s_.get("init") is not None:
+                                fresh = F.is_call(F.strip(s_["init"]), "std::vec::Vec::<T>::with_capacity", "std::vec::Vec::<T>::new")
+                if fresh and len(touches) == 1:
+                    fv = call("std::iter::Iterator::collect", fv[1][2][1])
             if fv is not None and fv[0] == "call" and fv[1].endswith("Iterator::collect"):
                 if fv not in flat_forms:
                     flat_forms[fv] = flat_map_form(fv)
